@@ -1270,9 +1270,26 @@ def stream_cachehist(ctx, drv, cov, viols, root, r):
         hists.append(("overwrite", [("u", 0, k1, s1), ("u", 0, k2, s2)]))
         if tier != "quick" or (k2 is None or s2 is None):
             hists.append(("overwrite", [("u", 1, k1, s1), ("r",), ("u", 1, k2, s2)]))
+    # unpair and re-pair the same accessory with an unchanged database on ONE long-lived cache object:
+    # write X, delete X (only entry), write X again identically; two-entry variant A, B, -B, -A, A; with other
+    # operations (an unrelated write, a restart) interleaved at every position
+    for k, st in itertools.product(K, STATES):
+        x, y = ("u", 0, k, st), ("u", 1, "k2", 7)
+        base = [[x, ("d", 0), x], [x, y, ("d", 1), ("d", 0), x], [y, x, ("d", 0), ("d", 1), x], [x, x], [x, ("d", 0), x, ("d", 0), x]]
+        for b in base:
+            hists.append(("recreate", list(b)))
+        if tier != "quick" or st in (None, 7):
+            for pos in range(4):
+                hists.append(("recreate", ([x, ("d", 0), x])[:pos] + [("r",)] + ([x, ("d", 0), x])[pos:]))
+                hists.append(("recreate", ([x, ("d", 0), x])[:pos] + [y] + ([x, ("d", 0), x])[pos:]))
     for _ in range(100 if tier == "quick" else 3000):
-        hists.append(("random", [r.choice(full) for _ in range(r.randrange(3, 11))]))
-    stats = dict(histories=0, updates=0, updates_with_none_over_value=0, deletes=0, restarts=0, via={"direct": 0, "pairing": 0},
+        h = [r.choice(full) for _ in range(r.randrange(3, 11))]
+        if r.random() < 0.5:                      # bias: repeat an earlier operation verbatim, often after a delete
+            j = r.randrange(len(h))
+            if h[j][0] == "u":
+                h += [("d", h[j][1])] * r.choice([0, 1]) + [h[j]]
+        hists.append(("random", h))
+    stats = dict(identical_rewrites=0, identical_recreates_after_delete=0, histories=0, updates=0, updates_with_none_over_value=0, deletes=0, restarts=0, via={"direct": 0, "pairing": 0},
                  exhaustive_full_alphabet_up_to=2 if tier == "quick" else 3, exhaustive_small_alphabet_length=top,
                  model_replays=0)
     seen = set()
@@ -1328,13 +1345,22 @@ def stream_cachehist(ctx, drv, cov, viols, root, r):
         ps = [ctl.load_pairing(f"p{i}", dict(pds[i])) for i in range(2)]
         expected, trace, mops = {}, [], []
         problem = None
-        cfg = 0
+        prev_entry = {}        # last payload written per id on the CURRENT cache object (cleared by a restart)
         try:
             for op in h + [("r",)]:
                 if op[0] == "u":
                     _, i, kname, st = op
-                    cfg += 1
-                    ai = (cfg + i) % 2
+                    # the payload is a function of the operation alone (not of its position in the history), so
+                    # that "write X, delete X, write X again" re-creates a byte-identical entry (unpair / re-pair
+                    # with an unchanged database); distinct (key, state) pairs still carry distinct config numbers
+                    kidx, sidx = list(K).index(kname), STATES.index(st)
+                    cfg = 1 + kidx + 3 * sidx
+                    ai = (kidx + sidx + i) % 2
+                    if prev_entry.get(ids[i]) == (cfg, ai, kname, st):
+                        stats["identical_rewrites"] += 1
+                        if ids[i] not in expected:
+                            stats["identical_recreates_after_delete"] += 1
+                    prev_entry[ids[i]] = (cfg, ai, kname, st)
                     key = K[kname]
                     prev = expected.get(ids[i])
                     if prev and ((key is None and prev["broadcast_key"] is not None) or (st is None and prev["state_num"] is not None)):
@@ -1358,6 +1384,7 @@ def stream_cachehist(ctx, drv, cov, viols, root, r):
                     trace.append(["restart"])
                     stats["restarts"] += 1
                     c, ctl, ps, problem = check_restart(expected, trace, via)
+                    prev_entry = {}
                     if problem:
                         break
                     if via == "direct" and len(model_reqs) < (300 if tier == "quick" else 3000) and mops:
@@ -1548,10 +1575,493 @@ def stream_cache(ctx, drv, cov, viols, root, r):
     cov.extra["cache_prefix_stream"] = pstats
 
 
+# ---------------------------------------------------------------- extraction cross-check (vm_compute inside Coq)
+class RecordingDriver(Driver):
+    """The extracted driver, remembering a bounded number of small (request, answer) pairs per request kind
+    (in stream order) for the vm_compute cross-check.  Requests and answers pass through unchanged."""
+    KEEP = 400                   # pairs remembered per kind
+    MAX_CHARS = 14000            # request + answer; keeps every Gallina literal and every printed value small
+
+    def __init__(self, exe, workers=12):
+        super().__init__(exe, workers)
+        self.seen = {}
+
+    def batch(self, lines):
+        lines = list(lines)
+        answers = super().batch(lines)
+        for q, a in zip(lines, answers):
+            lst = self.seen.setdefault(q.split(" ", 1)[0], [])
+            if len(lst) < self.KEEP and len(q) + len(a) <= self.MAX_CHARS:
+                lst.append((q, a))
+        return answers
+
+
+XCHECK_KINDS = (("sim", 4), ("proc", 3), ("rt", 6), ("entry", 3), ("pairs", 4), ("cmap", 3), ("hexrt", 3))
+
+
+def xcheck_sample(seen):
+    """Deterministic sample: per kind, distinct requests ordered by size (stable), evenly spaced over the smaller
+    half (so the smallest - usually an error class - and some mid-sized ones)."""
+    out = []
+    for kind, k in XCHECK_KINDS:
+        uniq, have = [], set()
+        for q, a in seen.get(kind, []):
+            if q in have or "#" in a or a.startswith(("unmodelled", "driver-exception", "bad-request")):
+                continue
+            have.add(q)
+            uniq.append((q, a))
+        uniq.sort(key=lambda qa: len(qa[0]) + len(qa[1]))
+        n = len(uniq)
+        idx = sorted({(j * (n - 1)) // (2 * max(k - 1, 1)) for j in range(k)}) if n else []
+        out += [uniq[i] for i in idx]
+    return out
+
+
+CKEY_NAMES = [("type", "K_type"), ("iid", "K_iid"), ("perms", "K_perms"), ("format", "K_format"), ("value", "K_value"),
+              ("ev", "K_ev"), ("description", "K_description"), ("unit", "K_unit"), ("minValue", "K_minValue"),
+              ("maxValue", "K_maxValue"), ("minStep", "K_minStep"), ("maxLen", "K_maxLen"),
+              ("valid-values", "K_valid_values"), ("handle", "K_handle"), ("broadcast_events", "K_broadcast_events"),
+              ("disconnected_events", "K_disconnected_events")]
+
+
+class XUnmodelled(Exception):
+    pass
+
+
+def x_parse(toks, pos=0):
+    """Token stream -> tree mirroring the driver's jv: ('n',) ('b',bool) ('i',z) ('d',m,e) ('s',bytes) ('a',[..]) ('o',[(bytes,v)..])."""
+    t = toks[pos]
+    c, body = t[0], t[1:]
+    if c == "n":
+        return ("n",), pos + 1
+    if c in "tf":
+        return ("b", c == "t"), pos + 1
+    if c == "i":
+        return ("i", int(body)), pos + 1
+    if c == "d":
+        m, e = body.split(":")
+        return ("d", int(m), int(e)), pos + 1
+    if c == "s":
+        return ("s", b"" if body == "-" else bytes.fromhex(body)), pos + 1
+    if c == "a":
+        out, pos = [], pos + 1
+        for _ in range(int(body)):
+            x, pos = x_parse(toks, pos)
+            out.append(x)
+        return ("a", out), pos
+    if c == "o":
+        out, pos = [], pos + 1
+        for _ in range(int(body)):
+            k, pos = x_parse(toks, pos)
+            x, pos = x_parse(toks, pos)
+            if k[0] != "s":
+                raise ValueError("key")
+            out.append((k[1], x))
+        return ("o", out), pos
+    raise ValueError(t)
+
+
+def g_list(items, ty):
+    items = list(items)
+    return "[" + "; ".join(items) + "]" if items else f"(@nil {ty})"
+
+
+def g_bytes(b):
+    return "[" + "; ".join(str(x) for x in b) + "]%N" if len(b) else "(@nil N)"
+
+
+def g_str(s):
+    return g_bytes(s.encode("ascii"))
+
+
+def g_jv(v):
+    k = v[0]
+    if k == "n":
+        return "JNull"
+    if k == "b":
+        return "(JBool true)" if v[1] else "(JBool false)"
+    if k == "i":
+        return f"(JInt ({v[1]})%Z)"
+    if k == "d":
+        return f"(JFlt ({v[1]})%Z {v[2]}%nat)"
+    if k == "s":
+        return f"(JStr {g_bytes(v[1])})"
+    if k == "a":
+        return "(JArr " + g_list((g_jv(x) for x in v[1]), "jv") + ")"
+    return "(JObj " + g_kv(v[1]) + ")"
+
+
+def g_kv(kv):
+    return g_list((f"({g_bytes(k)}, {g_jv(x)})" for k, x in kv), "(bytes * jv)")
+
+
+def g_opt(o, f=g_jv):
+    return "None" if o is None else f"(Some {f(o)})"
+
+
+def x_get(name, kv):
+    for k, v in kv:
+        if k == name.encode():
+            return v
+    return None
+
+
+def g_cdict(v):
+    if v[0] != "o":
+        raise XUnmodelled()
+    names = {n.encode(): c for n, c in CKEY_NAMES}
+    return g_list((f"({names[k]}, {g_jv(x)})" for k, x in v[1] if k in names), "(ckey * jv)")
+
+
+def g_sdict(v):
+    if v[0] != "o":
+        raise XUnmodelled()
+    kv = v[1]
+    chars, linked = x_get("characteristics", kv), x_get("linked", kv)
+    if (chars is not None and chars[0] != "a") or (linked is not None and linked[0] != "a"):
+        raise XUnmodelled()
+    return "(mksd %s %s %s %s)" % (
+        g_opt(x_get("iid", kv)), g_opt(x_get("type", kv)),
+        g_opt(chars, lambda c: g_list((g_cdict(x) for x in c[1]), "cdict")),
+        g_opt(linked, lambda c: g_list((g_jv(x) for x in c[1]), "jv")))
+
+
+def g_adict(v):
+    if v[0] != "o":
+        raise XUnmodelled()
+    svcs = x_get("services", v[1])
+    if svcs is not None and svcs[0] != "a":
+        raise XUnmodelled()
+    return "(mkad %s %s)" % (g_opt(x_get("aid", v[1])), g_opt(svcs, lambda c: g_list((g_sdict(x) for x in c[1]), "sdict")))
+
+
+def g_adicts(v):
+    if v[0] != "a":
+        raise XUnmodelled()
+    return g_list((g_adict(x) for x in v[1]), "adict")
+
+
+def g_table(t):
+    """tab_of: first entry with the type as key; an entry that is not an object gives the empty row."""
+    out, closing = "(fun ty : bytes => ", ""
+    for k, e in (t[1] if t[0] == "o" else []):
+        if e[0] == "o":
+            def g(name, kv=e[1]):
+                x = x_get(name, kv)
+                return "None" if x is None or x == ("n",) else f"(Some {g_jv(x)})"
+            row = "(mkctab %s %s %s %s %s %s)" % tuple(g(n) for n in ("format", "description", "unit", "min_value",
+                                                                     "max_value", "min_step"))
+        else:
+            row = "no_tab"
+        out += f"if bytes_eqb ty {g_bytes(k)} then {row} else ("
+        closing += ")"
+    return out + "no_tab" + closing + ")"
+
+
+def g_ops(toks):
+    out = []
+    for t in toks:
+        p = t.split(".")
+        if p[0] in ("T", "A") and len(p) == 3:
+            out.append(f"{'OpenTrunc' if p[0] == 'T' else 'OpenAppend'} {int(p[1])}%N {int(p[2])}%N")
+        elif p[0] == "W" and len(p) == 3:
+            out.append(f"Write {int(p[1])}%N {g_bytes(unhx_(p[2]))}")
+        elif p[0] in ("S", "C") and len(p) == 2:
+            out.append(f"{'Fsync' if p[0] == 'S' else 'Close'} {int(p[1])}%N")
+        elif p[0] == "R" and len(p) == 3:
+            out.append(f"Rename {int(p[1])}%N {int(p[2])}%N")
+        elif p[0] == "U" and len(p) == 2:
+            out.append(f"Unlink {int(p[1])}%N")
+        else:
+            raise ValueError(t)
+    return out
+
+
+def unhx_(s):
+    return b"" if s == "-" else bytes.fromhex(s)
+
+
+def zs_bytes(b):
+    return [4, len(b)] + list(b)
+
+
+def zs_tokens(toks):
+    """The driver's printed jv tokens / class words -> the integer list the generated show_* functions produce."""
+    out = []
+    for t in toks:
+        c, body = t[0], t[1:]
+        if t in ("ok", "err", "crash", "fuel"):
+            out.append({"ok": 100, "err": 101, "crash": 102, "fuel": 103}[t])
+        elif t == ";":
+            out.append(-1)
+        elif t == "n":
+            out.append(0)
+        elif t in ("t", "f"):
+            out += [1, int(t == "t")]
+        elif c == "i":
+            out += [2, int(body)]
+        elif c == "d":
+            m, e = body.split(":")
+            out += [3, int(m), int(e)]
+        elif c == "s":
+            out += zs_bytes(unhx_(body))
+        elif c == "a":
+            out += [5, int(body)]
+        elif c == "o":
+            out += [6, int(body)]
+        else:
+            raise ValueError(t)
+    return out
+
+
+XCHECK_PRELUDE = """From Coq Require Import List NArith ZArith Bool.
+From AHK Require Import Lib.Res Lib.ByteStr Model.Persist Model.PersistRec.
+Import ListNotations.
+Open Scope Z_scope.
+(* jv -> list Z, token by token as the driver prints it *)
+Definition fb (s : bytes) : list Z := 4 :: Z.of_nat (length s) :: map Z.of_N s.
+Fixpoint flat (v : jv) : list Z :=
+  match v with
+  | JNull => [0]
+  | JBool b => [1; if b then 1 else 0]
+  | JInt z => [2; z]
+  | JFlt m e => [3; m; Z.of_nat e]
+  | JStr s => fb s
+  | JArr l => 5 :: Z.of_nat (length l) :: flat_map flat l
+  | JObj kv => 6 :: Z.of_nat (length kv) :: flat_map (fun p => match p with (k, x) => fb k ++ flat x end) kv
+  end.
+Definition show_res {A} (f : A -> list Z) (r : res unit A) : list Z :=
+  match r with Ok a => 100 :: f a | Err _ => [101] | Crash => [102] | OutOfFuel => [103] end.
+Definition norm_x (s : bytes) : option bytes := match s with (33%N :: _) => None | _ => Some s end.
+(* the record <-> jv dumps of ocaml/drv_c20.ml, written again in Gallina *)
+@key_defs@
+Definition jo (o : option jv) : jv := match o with Some v => v | None => JNull end.
+Definition dump_chr (c : chr) : jv :=
+  JObj [(ks_type, JStr (c_type c)); (ks_iid, c_iid c); (ks_perms, JArr (map JStr (c_perms c)));
+        (ks_format, jo (c_format c)); (ks_value, jo (c_value c)); (ks_description, jo (c_desc c));
+        (ks_unit, jo (c_unit c)); (ks_minValue, jo (c_min c)); (ks_maxValue, jo (c_max c));
+        (ks_minStep, jo (c_step c)); (ks_valid_values, jo (c_valid c)); (ks_handle, jo (c_handle c));
+        (ks_broadcast_events, jo (c_bcast c)); (ks_disconnected_events, jo (c_disc c))].
+Definition dump_svc (s : svc) : jv :=
+  JObj [(ks_iid, s_iid s); (ks_type, JStr (s_type s)); (ks_linked, JArr (s_linked s));
+        (ks_characteristics, JArr (map dump_chr (s_chars s)))].
+Definition dump_acc (a : acc) : jv := JObj [(ks_aid, a_aid a); (ks_services, JArr (map dump_svc (a_services a)))].
+Definition dump_accs (l : list acc) : jv := JArr (map dump_acc l).
+Definition ckey_name (k : ckey) : bytes :=
+  match k with
+@ckey_cases@
+  end.
+Definition jv_of_cdict (d : cdict) : jv := JObj (map (fun p => (ckey_name (fst p), snd p)) d).
+Definition opt (k : bytes) (o : option jv) : list (bytes * jv) := match o with Some v => [(k, v)] | None => [] end.
+Definition jv_of_sdict (d : sdict) : jv :=
+  JObj (opt ks_iid (sd_iid d) ++ opt ks_type (sd_type d)
+        ++ match sd_chars d with Some l => [(ks_characteristics, JArr (map jv_of_cdict l))] | None => [] end
+        ++ match sd_linked d with Some l => [(ks_linked, JArr l)] | None => [] end).
+Definition jv_of_adict (d : adict) : jv :=
+  JObj (opt ks_aid (ad_aid d)
+        ++ match ad_services d with Some l => [(ks_services, JArr (map jv_of_sdict l))] | None => [] end).
+Definition show_rt (tbl : bytes -> ctab) (ads : list adict) : list Z :=
+  match accs_from norm_x tbl ads with
+  | Ok accs =>
+      let ser := accs_to accs in
+      100 :: flat (dump_accs accs) ++ -1 :: flat (JArr (map jv_of_adict ser))
+          ++ -1 :: show_res (fun l => flat (dump_accs l)) (accs_from norm_x tbl ser)
+          ++ -1 :: [1; if forallb (wf_accb norm_x tbl) accs then 1 else 0]
+  | r => show_res (fun _ => []) r
+  end.
+Definition hexd (n : N) : N := if N.ltb n 10 then (48 + n)%N else (87 + n)%N.
+Definition hexs (b : bytes) : bytes := flat_map (fun x => [hexd (x / 16)%N; hexd (x mod 16)%N]) b.
+Definition show_entry (tbl : bytes -> ctab) (ce : centry) : list Z :=
+  match entry_load norm_x tbl ce with
+  | Ok st =>
+      let back := entry_save st in
+      100 :: flat (JObj [(ks_config_num, st_config st);
+                         (ks_broadcast_key, match st_bkey st with Some k => JStr (hexs k) | None => JNull end);
+                         (ks_state_num, jo (st_state st)); (ks_accessories, dump_accs (st_accs st))])
+          ++ -1 :: flat (JObj [(ks_config_num, jo (e_config back));
+                               (ks_accessories, match e_accs back with Some l => JArr (map jv_of_adict l) | None => JNull end);
+                               (ks_broadcast_key, jo (e_bkey back)); (ks_state_num, jo (e_state back))])
+  | r => show_res (fun _ => []) r
+  end.
+Definition show_pairs (pf : pfile) : list Z :=
+  match load_pairings pf with
+  | None => [102]
+  | Some l => 100 :: flat (JObj (map (fun p => (fst p, JObj (snd p))) (save_pairings l)))
+  end.
+Definition show_cmap (m0 : cmap jv) (ops : list (cop jv)) : list Z := 100 :: flat (JObj (map_run _ ops m0)).
+Definition show_hexrt (b : bytes) : list Z := match hex_dec (hex_enc b) with Some x => 100 :: fb x | None => [104] end.
+(* the crash-point loop of the driver's sim command *)
+Definition empty_fs : fs := mkfs (fun _ => None) (fun _ => []) (fun _ => O) (fun _ => None) 0%N.
+Definition cls_code (c : fclass) : Z :=
+  match c with CMissing => 0 | COld => 1 | CNew => 2 | CPrefixNew => 3 | COther => 4 end.
+(* file contents: in full up to 48 bytes, else length, Adler-32 and last byte (printing long lists is what costs time) *)
+Definition adler (c : bytes) : N :=
+  let ab := fold_left (fun ab x => let a := ((fst ab + x) mod 65521)%N in (a, ((snd ab + a) mod 65521)%N)) c (1%N, 0%N) in
+  (snd ab * 65536 + fst ab)%N.
+Definition fc (c : bytes) : list Z :=
+  if Nat.leb (length c) 48 then fb c else [7; Z.of_nat (length c); Z.of_N (adler c); Z.of_N (last c 0%N)].
+Definition show_view (old : option bytes) (nw : bytes) (target : N) (nnames n : nat) (vc : Z) (v : fs) : list Z :=
+  let ls := flat_map (fun k => match read v (N.of_nat k) with Some c => [Z.of_nat k :: fc c] | None => [] end)
+                     (seq 0 nnames) in
+  Z.of_nat n :: vc :: cls_code (classify old nw (read v target)) :: Z.of_nat (length ls) :: concat ls.
+Definition show_sim (target : N) (old : option bytes) (nw : bytes) (nnames : nat) (init_ops ops : list op) : list Z :=
+  let st0 := run init_ops empty_fs in
+  flat_map (fun n => let st := crash_after n ops st0 in
+                     show_view old nw target nnames n 0 (view_all st) ++ show_view old nw target nnames n 1 (view_lossy st))
+           (seq 0 (S (length ops))).
+Definition op_flat (o : op) : list Z :=
+  match o with
+  | OpenTrunc h f => [0; Z.of_N h; Z.of_N f]
+  | OpenAppend h f => [1; Z.of_N h; Z.of_N f]
+  | Write h b => 2 :: Z.of_N h :: fb b
+  | Fsync h => [3; Z.of_N h]
+  | Close h => [4; Z.of_N h]
+  | Rename a b => [5; Z.of_N a; Z.of_N b]
+  | Unlink a => [6; Z.of_N a]
+  end.
+"""
+
+CLS_CODE = {"missing": 0, "old": 1, "new": 2, "prefix": 3, "other": 4}
+OP_CODE = {"T": 0, "A": 1, "W": 2, "S": 3, "C": 4, "R": 5, "U": 6}
+
+
+def zs_ops(toks):
+    out = []
+    for t in toks:
+        p = t.split(".")
+        out.append(OP_CODE[p[0]])
+        if p[0] == "W":
+            out += [int(p[1])] + zs_bytes(unhx_(p[2]))
+        else:
+            out += [int(x) for x in p[1:]]
+    return out
+
+
+def xcheck_term(req):
+    """One driver request -> the Gallina term that evaluates the same model function(s)."""
+    toks = req.split()
+    kind = toks[0]
+    if kind == "sim":
+        target, old, nw, nnames, inits = toks[1:6]
+        init_ops = []
+        if inits != ".":
+            for t in inits.split(";"):
+                nm, h = t.split(":")
+                init_ops += [f"OpenTrunc 1000%N {int(nm)}%N", f"Write 1000%N {g_bytes(unhx_(h))}", "Fsync 1000%N", "Close 1000%N"]
+        return "show_sim %d%%N %s %s %d%%nat %s %s" % (
+            int(target), "None" if old == "!" else f"(Some {g_bytes(unhx_(old))})", g_bytes(unhx_(nw)), int(nnames),
+            g_list(init_ops, "op"), g_list(g_ops(toks[6:]), "op"))
+    if kind == "proc":
+        k, h, t, f = toks[1], int(toks[2]), int(toks[3]), int(toks[4])
+        chunks = g_list((g_bytes(unhx_(c)) for c in toks[5:]), "bytes")
+        call = {"inplace": f"save_inplace {h}%N {f}%N", "atomic": f"save_atomic {h}%N {t}%N {f}%N",
+                "nofsync": f"save_atomic_nofsync {h}%N {t}%N {f}%N"}[k]
+        return f"flat_map op_flat ({call} {chunks})"
+    if kind == "rt":
+        t, pos = x_parse(toks, 1)
+        a, _ = x_parse(toks, pos)
+        return f"show_rt {g_table(t)} {g_adicts(a)}"
+    if kind == "entry":
+        t, pos = x_parse(toks, 1)
+        e, _ = x_parse(toks, pos)
+        if e[0] != "o":
+            raise XUnmodelled()
+        kv = e[1]
+
+        def nonnull(name):
+            x = x_get(name, kv)
+            return None if x is None or x == ("n",) else x
+        return "show_entry %s (mkce %s %s %s %s)" % (g_table(t), g_opt(x_get("config_num", kv)),
+                                                     g_opt(x_get("accessories", kv), g_adicts),
+                                                     g_opt(nonnull("broadcast_key")), g_opt(nonnull("state_num")))
+    if kind == "pairs":
+        f, _ = x_parse(toks, 1)
+        if f[0] != "o" or any(d[0] != "o" for _, d in f[1]):
+            raise XUnmodelled()
+        return "show_pairs " + g_list((f"({g_bytes(a)}, {g_kv(d[1])})" for a, d in f[1]), "(bytes * pdata)")
+    if kind == "cmap":
+        m0, pos = x_parse(toks, 1)
+        ops, _ = x_parse(toks, pos)
+        if m0[0] != "o" or ops[0] != "a":
+            raise XUnmodelled()
+        gops = []
+        for o in ops[1]:
+            if o[0] == "a" and len(o[1]) == 3 and o[1][0] == ("s", b"u") and o[1][1][0] == "s":
+                gops.append(f"CUpdate {g_bytes(o[1][1][1])} {g_jv(o[1][2])}")
+            elif o[0] == "a" and len(o[1]) == 2 and o[1][0] == ("s", b"d") and o[1][1][0] == "s":
+                gops.append(f"CDelete {g_bytes(o[1][1][1])}")
+            else:
+                raise XUnmodelled()
+        return f"show_cmap {g_kv(m0[1])} {g_list(gops, '(cop jv)')}"
+    if kind == "hexrt":
+        return f"show_hexrt {g_bytes(unhx_(toks[1]))}"
+    raise XUnmodelled()
+
+
+def xcheck_expected(req, ans):
+    """The driver's answer line -> the integer list the Gallina term must evaluate to."""
+    kind = req.split(" ", 1)[0]
+    if kind == "sim":
+        out = []
+        for ent in ans.split("|"):
+            n, v, cls, lst = ent.split(";")
+            files = [kv.split("=") for kv in filter(None, lst.split(","))]
+            out += [int(n), {"a": 0, "l": 1}[v], CLS_CODE[cls], len(files)]
+            for k, c in files:
+                b = unhx_(c)
+                out += [int(k)] + (zs_bytes(b) if len(b) <= 48 else [7, len(b), zlib.adler32(b) & 0xFFFFFFFF, b[-1]])
+        return out
+    if kind == "proc":
+        return zs_ops(ans.split())
+    if kind == "hexrt":
+        t = ans.split()
+        return [104] if t == ["none"] else [100] + zs_bytes(unhx_(t[1]))
+    return zs_tokens(ans.split())
+
+
+def vm_crosscheck(ctx, sample):
+    """Evaluate a sample of the run's real driver requests with vm_compute inside Coq (the same model functions, the
+    driver's OCaml glue written again in Gallina in the generated file) and compare the complete answers with what
+    the extracted OCaml driver printed: takes extraction + ocaml/drv*.ml out of the single-point-of-trust position.
+    Returns (requests evaluated, [(request, driver answer as integers, vm_compute value)] that disagree)."""
+    import re
+
+    from common import coq_eval
+    keys = sorted(set(re.findall(r"\bks_(\w+)", XCHECK_PRELUDE)) | {n for n, _ in CKEY_NAMES if "-" not in n})
+    defs = [f"Definition ks_{k} : bytes := {g_str(k)}." for k in keys]
+    defs.append(f"Definition ks_valid_minus_values : bytes := {g_str('valid-values')}.")   # cdict key; the dump has valid_values
+    prelude = XCHECK_PRELUDE.replace("@key_defs@", "\n".join(defs)).replace(
+        "@ckey_cases@", "\n".join(f"  | {c} => ks_{n.replace('-', '_minus_')}" for n, c in CKEY_NAMES))
+    body, pairs = [prelude], []
+    for q, a in sample:
+        try:
+            term = xcheck_term(q)
+        except XUnmodelled:
+            continue
+        body.append(f"Eval vm_compute in ({term}).")
+        pairs.append((q, a))
+    if not pairs:
+        return 0, []
+    out = coq_eval(ctx["verif"], ctx.get("pid", "C20"), "crosscheck", "\n".join(body) + "\n", timeout=300)
+    blocks = re.split(r"(?m)^\s*= ", out)[1:]
+    bad = []
+    if len(blocks) != len(pairs):
+        return len(blocks), [("(all)", f"{len(pairs)} terms", f"{len(blocks)} values printed")]
+    for (q, a), blk in zip(pairs, blocks):
+        got = [int(x) for x in re.findall(r"-?\d+", blk.rsplit(":", 1)[0])]
+        try:
+            want = xcheck_expected(q, a)
+        except (ValueError, KeyError, IndexError):
+            want = None
+        if got != want:
+            bad.append((q, want, got))
+    return len(pairs), bad
+
+
 # ---------------------------------------------------------------- run
 async def run_async(ctx):
     tier, seed = ctx["tier"], ctx["seed"]
-    drv = Driver(ctx["driver"])
+    drv = RecordingDriver(ctx["driver"])
     cov = Coverage("distinct (stream, case, crash point, view) for the crash streams; distinct document for the "
                    "round-trip streams; distinct byte string for the prefix/corruption stream")
     viols = []
@@ -1571,6 +2081,17 @@ async def run_async(ctx):
             t0 = time.time()
             fn()
             timings[name] = round(time.time() - t0, 1)
+        if not ctx.get("replay"):
+            t0 = time.time()
+            n_x, bad_x = vm_crosscheck(ctx, xcheck_sample(drv.seen))
+            timings["vm_crosscheck"] = round(time.time() - t0, 1)
+            cov.extra["vm_compute_crosscheck"] = {"requests": n_x, "disagreements": len(bad_x)}
+            if bad_x:
+                q, want, got = bad_x[0]
+                viols.append(violation("extraction-vs-vm_compute", "extracted driver and vm_compute disagree on "
+                                       f"{len(bad_x)} of {n_x} sampled requests; first: {str(q)[:200]}", False,
+                                       request=str(q)[:2000], driver=str(want)[:600], vm_compute=str(got)[:600],
+                                       broken="extraction / ocaml/drv_c20.ml glue"))
         cov.extra["stream_seconds"] = timings
     finally:
         shutil.rmtree(root, ignore_errors=True)
